@@ -108,8 +108,8 @@ def run(ctx):
                 ctx.violation("implementation does not reproduce the published vector", {"case": l, "impl": o})
     pts = [E.G, E.ID, (0, E.P - 1)] + [E.rand_point(rng) for _ in range(6)]
     lines, classes, nt = [], [], []
-    maxops = 64 if ctx.quick() else 400
-    for i in range(ctx.n(500, 50000)):
+    maxops = 64 if ctx.quick() else 160
+    for i in range(ctx.n(500, 6000)):
         long_class = (i % 4 == 0)
         l = gen_seq(rng, maxops if i % 10 else 8, pts, long_class)
         lines.append(l)
